@@ -20,6 +20,7 @@ import (
 	"fmt"
 	"io"
 	"log"
+	"log/slog"
 	"math/big"
 	"net"
 	"net/http"
@@ -53,6 +54,7 @@ type PRes struct {
 	LastMod     bool        `json:"lastmod,omitempty"`
 	Status      int         `json:"status,omitempty"`
 	RangeMode   string      `json:"range,omitempty"`         // "ignore" (default) | "honor" | "416"
+	Hdr416      string      `json:"hdr416,omitempty"`        // cache headers of a 416 answer: "" (the resource's own) | "none" | "no-store" | "max-age=3600"
 	CondMode    string      `json:"cond,omitempty"`          // "304" (default: proper revalidation) | "200" | "404" | "500"
 	EvictOnCond bool        `json:"evict_on_cond,omitempty"` // the stored entries are deleted while a conditional request for this resource is at the origin
 	BumpAtMs    []int64     `json:"bump_at,omitempty"`
@@ -181,6 +183,7 @@ type proxyWorld struct {
 	aborted     map[int]int
 	cond503     map[int]bool
 	dialN       int
+	errLog      []string
 	srvLog      []string
 	caPool      *x509.CertPool
 	ca          certs.CertAuthority
@@ -195,6 +198,30 @@ func (w *proxyWorld) nextSeq() int64 {
 	defer w.mu.Unlock()
 	w.seq++
 	return w.seq
+}
+
+// errSlog keeps reservoir's Error-level log records of one world (the rest is discarded): they
+// explain an aborted exchange in a violation message.
+type errSlog struct{ w *proxyWorld }
+
+func (h errSlog) Enabled(_ context.Context, l slog.Level) bool { return l >= slog.LevelError }
+func (h errSlog) WithAttrs([]slog.Attr) slog.Handler           { return h }
+func (h errSlog) WithGroup(string) slog.Handler                { return h }
+func (h errSlog) Handle(_ context.Context, r slog.Record) error {
+	var b strings.Builder
+	b.WriteString(r.Message)
+	r.Attrs(func(a slog.Attr) bool {
+		if a.Key == "error" || a.Key == "url" {
+			fmt.Fprintf(&b, " %s=%v", a.Key, a.Value)
+		}
+		return true
+	})
+	h.w.mu.Lock()
+	if len(h.w.errLog) < 20 {
+		h.w.errLog = append(h.w.errLog, b.String())
+	}
+	h.w.mu.Unlock()
+	return nil
 }
 
 type logWriter struct{ w *proxyWorld }
@@ -279,6 +306,8 @@ func (w *proxyWorld) originHandler(rw http.ResponseWriter, req *http.Request) {
 			e.Cond = true
 			if strings.Contains(v, "client-marker") || strings.Contains(v, "01 Jan 1999") {
 				e.Marker = true
+			} else if t, err := http.ParseTime(v); err == nil && t.Equal(time.Date(1999, 1, 1, 0, 0, 0, 0, time.UTC)) {
+				e.Marker = true // the client's date in one of the obsolete HTTP date forms
 			}
 		}
 	}
@@ -431,6 +460,14 @@ func (w *proxyWorld) originHandler(rw http.ResponseWriter, req *http.Request) {
 				status = 416
 				out = []byte("range not satisfiable\n")
 				h.Set("Content-Range", fmt.Sprintf("bytes */%d", len(full)))
+				if r.Hdr416 != "" {
+					// an error answer rarely carries the cache headers of the representation
+					h.Del("Cache-Control")
+					h.Del("Expires")
+					if r.Hdr416 != "none" {
+						h.Set("Cache-Control", r.Hdr416)
+					}
+				}
 			}
 		}
 	}
@@ -1028,6 +1065,8 @@ func execProxyPlan(t *testing.T, p *ProxyPlan, ctl Ctl) (*proxyWorld, *Result) {
 	w := &proxyWorld{p: p, dir: dir, res: res, reqCnt: map[int]int{}, aborted: map[int]int{}, cond503: map[int]bool{}}
 	oldTransport := http.DefaultTransport
 	defer func() { http.DefaultTransport = oldTransport }()
+	slog.SetDefault(slog.New(errSlog{w}))
+	defer slog.SetDefault(slog.New(slog.DiscardHandler))
 	bubble(t, res, func() {
 		metrics.Global = metrics.NewMetrics()
 		s := zzsim.New(ctl.Seed, racePol(p.Pol))
